@@ -29,8 +29,9 @@ PID = "E03"
 DESIGN = {
     "quick": [("RestartBoundary_mc.cfg", True)],
     "thorough": [("RestartBoundary_mc.cfg", True), ("RestartBoundary_mc_thorough.cfg", False),
-                 ("RestartBoundary_mc_crash.cfg", False), ("RestartBoundary_mc_two.cfg", False),
-                 ("RestartBoundary_refine.cfg", False), ("RestartBoundary_live.cfg", False)],
+                 ("RestartBoundary_mc_abort.cfg", False), ("RestartBoundary_mc_crash.cfg", False),
+                 ("RestartBoundary_mc_two.cfg", False), ("RestartBoundary_refine.cfg", False),
+                 ("RestartBoundary_live.cfg", False)],
 }
 # named sub-actions of RNext that must have been taken (vacuity guard)
 REQUIRED_ACTIONS = ["NEnsure", "FinishRequesting", "FinishQuiet", "HRestartRequesting", "HRestartQuiet",
